@@ -296,6 +296,32 @@ pub fn decompress_limited(ic: u8, data: &[u8], limit: u64) -> Result<Vec<u8>, St
     Ok(out)
 }
 
+/// Decodes as much as can be decoded (a streaming reader sees exactly this prefix before it hits
+/// the error): never fails, returns the partial output.
+pub fn decompress_lenient(ic: u8, data: &[u8], limit: usize) -> Vec<u8> {
+    fn drain(mut r: impl Read, limit: usize) -> Vec<u8> {
+        let mut out = Vec::new();
+        let mut buf = [0u8; 4096];
+        while out.len() < limit {
+            match r.read(&mut buf) {
+                Ok(0) | Err(_) => break,
+                Ok(n) => out.extend_from_slice(&buf[..n]),
+            }
+        }
+        out
+    }
+    match ic {
+        1 => data[..data.len().min(limit)].to_vec(),
+        2 => drain(flate2::read::GzDecoder::new(data), limit),
+        3 => drain(brotli::Decompressor::new(data, 4096), limit),
+        4 => match zstd::stream::read::Decoder::new(data) {
+            Ok(d) => drain(d, limit),
+            Err(_) => Vec::new(),
+        },
+        _ => Vec::new(),
+    }
+}
+
 // ---------------------------------------------------------------------------------------------
 // directory walk
 
